@@ -65,11 +65,11 @@ func run(r *vk.Run) {
 		"wrapped streams are used within gRPC's contract: one sending and one receiving goroutine per stream, CloseSend after the last send, Trailer only after RecvMsg returned an error; the client may cancel its context at any time",
 		"panics recovered on the caller's goroutine and call errors are counted, not judged (other properties own them); absence of a report means none observed on these schedules")
 
-	nProg := r.Pick(340, 10200)
+	nProg := r.Pick(357, 30600) // multiples of 17 families x 3 yield modes
 	opsLo, opsHi := 260, 460
 	perFamily := map[string]*famStats{}
 	for _, f := range families {
-		perFamily[f.name] = &famStats{pairs: map[string]int{}, calls: map[string]int{}}
+		perFamily[f.name] = &famStats{pairs: map[string]int{}, calls: map[string]int{}, opts: map[string]int{}}
 	}
 	for i := 0; i < nProg; i++ {
 		if !r.Mine(i) {
@@ -123,6 +123,9 @@ func run(r *vk.Run) {
 			}
 			st.pairs[a+"×"+b] += c
 		}
+		for k, c := range p.opts {
+			st.opts[k] += c
+		}
 		for _, msg := range out.panicMsgs {
 			if st.panicNotes < 2 {
 				st.panicNotes++
@@ -157,14 +160,19 @@ func run(r *vk.Run) {
 		for pr, c := range st.pairs {
 			r.Count("pairs/"+pr, c)
 		}
+		for o, c := range st.opts {
+			r.Count("options/"+o, c)
+		}
 	}
 
 	// minimums: a run that overlapped nothing is inconclusive, not green
 	perFam := nProg / len(families)
-	r.Require("programs", nProg*9/10)
+	r.Require("programs", nProg*8/10)
 	r.Require("ops", nProg*opsLo/4)
 	for _, f := range families {
-		r.Require("programs/"+f.name, perFam*8/10)
+		// half: a worker that died in a family (a race can corrupt a map: "fatal error: concurrent map writes") is
+		// restarted by the driver with that family skipped in its shard
+		r.Require("programs/"+f.name, perFam/2)
 		r.Require("overlaps/"+f.name, perFam*20)
 	}
 	for _, m := range []string{"Value.Set", "Value.Get", "Value.Pull", "Collection.Add(genid)", "Collection.Update", "Collection.Delete",
@@ -173,13 +181,22 @@ func run(r *vk.Run) {
 		"parent.AddChildTrait", "parent.RemoveChildTrait", "metadata.MergeMetadata", "metadataCol.MergeMetadata", "vending.DispenseInstantly",
 		"publication.UpdatePublication", "hail.CreateHail", "waste.AddWasteRecord", "openclose.UpdatePositions(preset)",
 		"mode.UpdateModeValues", "fanspeed.UpdateFanSpeed", "cancel"} {
-		r.Require("calls/"+m, perFam)
+		r.Require("calls/"+m, perFam*3)
+	}
+	for _, m := range []string{"Value.Pull", "Collection.Pull", "Collection.PullID"} {
+		for _, combo := range []string{"", "uo", "bp", "uo,bp", "rmask", "rmask,uo", "rmask,bp", "rmask,uo,bp"} {
+			r.Require("options/"+m+"["+combo+"]", perFam/4)
+		}
+	}
+	for _, o := range []string{"umask", "before", "after", "check", "expval", "wtime", "reset", "allw", "morew"} {
+		r.Require("options/Value.Set:"+o, perFam*3)
+		r.Require("options/Collection.Update:"+o, perFam)
 	}
 	for _, pr := range []string{"Value.Get×Value.Set", "Value.Set×Value.Set", "Collection.Add(genid)×Collection.Add(genid)",
 		"Collection.List×Collection.Update", "Bus.Listen×Bus.Send", "Router.Add×Router.Get", "Router.Get×Router.Get",
 		"electric.CreateMode×electric.CreateMode", "parent.AddChildTrait×parent.ListChildren", "parent.ListChildren×parent.RemoveChildTrait",
 		"metadata.GetMetadata×metadata.MergeMetadata", "wrap.BidiStream×wrap.BidiStream"} {
-		r.Require("pairs/"+pr, perFam/2)
+		r.Require("pairs/"+pr, perFam*5)
 	}
 }
 
@@ -187,6 +204,7 @@ type famStats struct {
 	ops, overlaps, events, errs, panics int
 	pairs                               map[string]int
 	calls                               map[string]int
+	opts                                map[string]int
 	panicNotes                          int
 }
 
